@@ -320,22 +320,8 @@ fn judge(cx: &Ctx, rep: &mut Reporter, p: &Program, f: ProgFn, steps: &[Step], d
         return tr;
     }
 
-    // --- reference equality of every sink
-    rep.eval();
-    for d in compare(p, &rf, &tr) {
-        let node = sink_nodes(p)[d.sink].unwrap();
-        let site = site_of(p, p.nodes[node].ins[0]);
-        rep.violation(
-            &format!("{prop}|{site}|{}", d.kind),
-            &format!(
-                "program {} sink {} tick {}: real {:?} vs documented {:?} (nearest operator upstream: {site})",
-                p.id, d.sink, d.tick, d.real, d.reference
-            ),
-            case(json!({"sink": d.sink, "tick": d.tick, "real": d.real, "reference": d.reference, "kind": d.kind})),
-        );
-    }
-
     // --- tick counter (all properties observe it; only C24 owns the verdict on scheduling)
+    let mut ticks_ok = true;
     if prop == "C24" {
         for (i, (so, (rb, ra))) in tr.steps.iter().zip(rf.steps.iter()).enumerate() {
             rep.eval();
@@ -344,6 +330,7 @@ fn judge(cx: &Ctx, rep: &mut Reporter, p: &Program, f: ProgFn, steps: &[Step], d
             if let Some(started) = so.ticks_started {
                 rep.eval();
                 if started != ran {
+                    ticks_ok = false;
                     rep.violation(
                         "C24|current_tick|counter-differs-from-executed-ticks",
                         &format!("program {} step {i}: {} ticks were started but current_tick advanced by {}", p.id, started, ran),
@@ -352,6 +339,7 @@ fn judge(cx: &Ctx, rep: &mut Reporter, p: &Program, f: ProgFn, steps: &[Step], d
                 }
             }
             if ran != want {
+                ticks_ok = false;
                 let (site, kind) = if !steps[i].avail {
                     ("run_tick_sync", "counter-not-plus-one")
                 } else if ran < want {
@@ -376,6 +364,23 @@ fn judge(cx: &Ctx, rep: &mut Reporter, p: &Program, f: ProgFn, steps: &[Step], d
         if rf.wake_fired {
             rep.count("c24_wake_fired");
         }
+    }
+
+    // --- reference equality of every sink
+    // (skipped when the executed ticks already deviate: per-tick outputs are then misaligned and
+    // would only repeat the scheduling violation under many operator names)
+    rep.eval();
+    for d in if ticks_ok { compare(p, &rf, &tr) } else { vec![] } {
+        let node = sink_nodes(p)[d.sink].unwrap();
+        let site = site_of(p, p.nodes[node].ins[0]);
+        rep.violation(
+            &format!("{prop}|{site}|{}", d.kind),
+            &format!(
+                "program {} sink {} tick {}: real {:?} vs documented {:?} (nearest operator upstream: {site})",
+                p.id, d.sink, d.tick, d.real, d.reference
+            ),
+            case(json!({"sink": d.sink, "tick": d.tick, "real": d.real, "reference": d.reference, "kind": d.kind})),
+        );
     }
 
     // --- direct invariants (independent of the interpreter)
@@ -441,7 +446,7 @@ fn judge(cx: &Ctx, rep: &mut Reporter, p: &Program, f: ProgFn, steps: &[Step], d
                 }
                 rep.count("c23_direct_count_checks");
             }
-            Check::Deferred { entry_sink, exit_sink, d } if prop == "C24" => {
+            Check::Deferred { entry_sink, exit_sink, d } if prop == "C24" && ticks_ok => {
                 rep.eval();
                 let (en, ex) = (sink(*entry_sink), sink(*exit_sink));
                 let n = nt as usize;
